@@ -428,6 +428,45 @@ fn generator_time_refusals(out: &mut Out) {
     out.line("note generator-time refusals in tuples", "ok");
 }
 
+/// Devices of different sizes (oracle only: the model's devices all have 249 transducers). A member whose wire size
+/// depends on the transducer count (Gain, PhaseCorrection) makes one device finish the tuple frames earlier than the
+/// other; the device that is done must be left alone while the rest of the tuple goes out.
+fn run_hetero(out: &mut Out, sizes: &[usize], a: &Spec, b: &Spec) {
+    let run = |tuple: bool| -> Result<(Vec<String>, String, usize), String> {
+        let mut w = World::with_sizes(sizes, T0);
+        guarded(move || {
+            let _ = w.send_spec(&Spec::Clear, usize::MAX);
+            let _ = w.send_spec(&Spec::SilSteps(1, 1, false), usize::MAX);
+            let (res, frames) = if tuple {
+                let o = w.send_tuple_spec(a, b, usize::MAX);
+                (o.result, o.frames)
+            } else {
+                let ra = w.send_spec(a, usize::MAX);
+                let rb = w.send_spec(b, usize::MAX);
+                (format!("{}/{}", ra.result, rb.result), ra.frames + rb.frames)
+            };
+            (snapshot(&w), res, frames)
+        })
+    };
+    let key = format!("C03:hetero{sizes:?}:({} , {})", a.text(), b.text());
+    out.case(Some(fnv64(key.as_bytes())));
+    out.count("hetero-devices (oracle only)");
+    match (run(true), run(false)) {
+        (Ok((s1, r1, _)), Ok((s2, r2, _))) => {
+            if r1 == "ok" && r2 == "ok/ok" && different_resources(a, b) && s1 != s2 {
+                let d = (0..sizes.len()).find(|&d| s1[d] != s2[d]).unwrap();
+                out.violation(
+                    key,
+                    format!("devices with {sizes:?} transducers: after the tuple device {d} differs from sending the parts in order (a device that had received everything was given more)"),
+                    vec![format!("devices {sizes:?}"), format!("send pair {} | {}", a.text(), b.text())],
+                );
+            }
+        }
+        (Err(m), Ok(_)) => out.violation(key, format!("the tuple panicked where its parts do not: {m}"), vec![format!("devices {sizes:?}"), format!("send pair {} | {}", a.text(), b.text())]),
+        _ => out.count("not-evaluable:panic"),
+    }
+}
+
 pub fn run_c03(args: &Args) {
     let mut out = Out::new(&args.out);
     let thorough = args.tier == "thorough";
@@ -598,6 +637,18 @@ pub fn run_c03(args: &Args) {
     }
     out.count_n("page-aligned-tuples", aligned as u64);
     generator_time_refusals(&mut out);
+    // devices of different sizes: one device is done while the other still receives frames of the tuple
+    for sizes in [vec![249usize, 10], vec![10, 249], vec![249, 40, 249]] {
+        for (a, b) in [
+            (Spec::Mod { seg: 0, tr: Some((0xFF, 0)), rep: 0xFFFF, div: 10, n: 554, seed: 100 }, Spec::Gain { seg: 0, tr: Some((0xFF, 0)), seed: 101 }),
+            (Spec::Mod { seg: 1, tr: None, rep: 0xFFFF, div: 10, n: 1300, seed: 102 }, Spec::Gain { seg: 1, tr: None, seed: 103 }),
+            (Spec::Foci { n: 1, seg: 0, tr: Some((0xFF, 0)), rep: 0xFFFF, div: 100, ss: 21760, size: 134, seed: 104 }, Spec::PhaseCorr(105)),
+            (Spec::Mod { seg: 0, tr: None, rep: 0xFFFF, div: 10, n: 900, seed: 106 }, Spec::Pwe(107)),
+            (Spec::Gain { seg: 1, tr: None, seed: 108 }, Spec::Mod { seg: 1, tr: None, rep: 0xFFFF, div: 10, n: 700, seed: 109 }),
+        ] {
+            run_hetero(&mut out, &sizes, &a, &b);
+        }
+    }
     let _ = frames_of;
     out.sample("reset 1 … / send clear / send silsteps 1 1 0 / send pair mod 1 - 3 10 972 6 | gain 0 255:0 1".into());
     out.finish(
